@@ -51,6 +51,8 @@ def gen_system(rnd):
             cys = [i for i, x in enumerate(res) if x['resname'] == 'CYS']
             if len(cys) >= 2 and rnd.random() < 0.6:
                 cross = cys[:2]
+            if rnd.random() < 0.3:
+                res[-1]['surplus'] = True
             mols.append({'kind': 'protein', 'chain': rnd.choice(['A', 'B', 'A', '']), 'res': res, 'cross': cross})
         else:
             n = rnd.randint(1, 3)
@@ -137,6 +139,13 @@ def build(mols, with_atoms=True):
                 if prevC is not None:
                     mol.add_edge(prevC, local['N'])
                 prevC = local['C']
+                if r.get('surplus'):
+                    # an atom the plain residue block does not have (a second carboxylate oxygen): belongs to a C-terminal
+                    # modification if one is requested, is surplus if the residue is requested as anything else
+                    mol.add_node(k, atomname='OXT', element='O', resname=r['resname'], resid=r['resid'], chain=m['chain'],
+                                 insertion_code=r['icode'], atomid=k + 1, tag=(mi, ri))
+                    mol.add_edge(local['C'], k)
+                    k += 1
                 if 'SG' in local:
                     sg[ri] = local['SG']
             else:
